@@ -277,13 +277,35 @@ func runC08(c *Ctx) {
 		c.Note("size:" + dim)
 		c.Note(fmt.Sprintf("datamode:%d", mode))
 		hd := hexs(d)
+		// every other job hands the data over as a prefix of a larger buffer (one codeword stream cut into several
+		// symbols): the callee owns neither the bytes behind the prefix nor the prefix itself
+		orig := append([]byte(nil), d...)
+		if ji%2 == 1 {
+			big := make([]byte, len(d), len(d)+400)
+			copy(big, d)
+			tail := big[len(d):cap(big)]
+			for i := range tail {
+				tail[i] = 0xA5
+			}
+			d = big
+			c.Note("ecc:data-is-prefix-of-larger-buffer")
+		}
 		// 1. ECC
 		goEcc := Safe(func() string {
 			out, e := encoder.ErrorCorrection_EncodeECC200(d, s)
 			if e != nil {
 				return "ERR:" + errKind(e)
 			}
-			return hexs(out)
+			res := hexs(out)
+			if string(d) != string(orig) {
+				return "ARGUMENT-MUTATED data=" + hexs(d)
+			}
+			for _, v := range d[len(d):cap(d)] {
+				if v != 0xA5 {
+					return "WROTE-BEHIND-THE-ARGUMENT-SLICE " + res
+				}
+			}
+			return res
 		})
 		opEcc := fmt.Sprintf("c08 ecc %d %s", j.idx, hd)
 		refEcc := c.Model([]string{opEcc})[0]
